@@ -150,6 +150,10 @@ F10 == << Doc("F10", "scalars", SAnyOf(<< SInt, SStr >>)),
           Doc("F10", "obj-disjoint", SAnyOf(<< SObjClosed(Props1("a", SInt), {"a"}), SObjClosed(Props1("b", SStr), {"b"}) >>)),
           Doc("F10", "arr-obj", SAnyOf(<< SArr(SInt), SObj(Props1("q", SInt), {"q"}) >>)),
           Doc2("F10", "refs", SAnyOf(<< SRef("N"), SBool >>), "N", SObj(Props1("q", SInt), {"q"})),
+          Doc("F10", "tuples-short-first", SAnyOf(<< STuple(<<SInt, SStr>>), STuple(<<SInt, SStr, SBool>>) >>)),
+          Doc("F10", "tuples-long-first", SAnyOf(<< STuple(<<SInt, SStr, SBool>>), STuple(<<SInt, SStr>>) >>)),
+          Doc("F10", "tuple-vs-fixed", SAnyOf(<< SFixed(SInt, 3), STuple(<<SInt, SInt>>) >>)),
+          Doc("F10", "obj-required-disjoint", SAnyOf(<< SObj(Props1("a", SInt), {"a"}), SArr(SInt) >>)),
           Doc("F10", "enum-consts", SAnyOf(<< EnumS(<<JS(<<"a">>)>>), EnumS(<<JS(<<"b">>)>>) >>)) >>
 
 F11 == << Doc("F11", "two-objs", SAllOf(<< SObj(Props1("a", SInt), {"a"}), SObj(Props1("b", SStr), {}) >>)),
